@@ -250,6 +250,8 @@ def classify(m, t, x, strict):
                 dt = datetime.datetime.strptime(x, t.args['format'])
             except ValueError:
                 return REJECT
+            if dt.tzinfo is not None and dt.utcoffset().total_seconds() != 0:
+                return UNSPEC      # only UTC values are documented as valid
             return ACCEPT if dt.strftime(t.args['format']) == x else UNSPEC
         raise AssertionError(t)
     if t.kind == 'list':
